@@ -23,6 +23,17 @@
 (* chunk j is Sig(<<data_1..data_j>>) (the whole chain it depends on).      *)
 (* The harness (harness/cmd/chunked) concretises tokens into bytes with     *)
 (* real HMAC-SHA256 chunk signatures and real checksums.                    *)
+(*                                                                         *)
+(* With Deviations = {} the module is the intended design (every request    *)
+(* body with Content-Encoding aws-chunked is decoded; without credentials   *)
+(* signatures cannot be verified but framing and trailer checksum are; an   *)
+(* inner EOF inside the framing is an error).  Named deviations = what the  *)
+(* code is known to do instead:                                             *)
+(*  D-C30-no-decode-without-auth  the decoder only exists inside            *)
+(*      checkAuthentication: auth disabled / anonymous => raw body stored   *)
+(*  D-C30-inner-eof-accepted      an io.EOF of the inner stream while a     *)
+(*      chunk header / chunk data / CRLF is expected is passed on as the    *)
+(*      regular end of the body                                             *)
 (***************************************************************************)
 EXTENDS Naturals, Integers, Sequences, FiniteSets, TLC
 
@@ -34,6 +45,8 @@ CONSTANTS Deviations,   \* deviation tags the code is known to have
 NoDecodeTag == "D-C30-no-decode-without-auth"
 InnerEofTag == "D-C30-inner-eof-accepted"
 
+\* signed = STREAMING-AWS4-HMAC-SHA256-PAYLOAD, signedtrailer = ...-PAYLOAD-TRAILER,
+\* unsignedtrailer = STREAMING-UNSIGNED-PAYLOAD-TRAILER, unsigned = STREAMING-UNSIGNED-PAYLOAD
 Modes  == {"signed", "signedtrailer", "unsignedtrailer", "unsigned"}
 Auths  == {"enabled", "disabled", "anonymous"}
 Ops    == {"PutObject", "UploadPart"}
@@ -52,7 +65,7 @@ ModeCfgs == ModeCfgsOf(Algos)
 
 FramingMuts == {"sizeminus", "sizeplus", "dropfinal", "truncdata", "truncmid", "trunccrlf"}
 TruncMuts   == {"truncdata", "truncmid", "trunccrlf"}
-MutKinds == {"none", "flip", "chunksig", "dropchunk", "sum", "sumsigned", "tsig"} \cup FramingMuts
+MutKinds == {"none", "flip", "chunksig", "dropchunk", "sum", "sumalgo", "sumsigned", "tsig"} \cup FramingMuts
 
 SumSeq(s) == LET S[i \in 0..Len(s)] == IF i = 0 THEN 0 ELSE S[i - 1] + s[i] IN S[Len(s)]
 
@@ -63,7 +76,7 @@ MutAts(ch, mode, sc) ==
   \cup {<<"flip", i>> : i \in 1..SumSeq(ch)}
   \cup (IF mode \in SignedModes THEN {<<"chunksig", j>> : j \in 1..(n + 1)} ELSE {})
   \cup (IF mode # "unsigned" THEN {<<"dropchunk", j>> : j \in 1..n} ELSE {})
-  \cup (IF mode \in TrailerModes THEN {<<"sum", 0>>} ELSE {})
+  \cup (IF mode \in TrailerModes THEN {<<"sum", 0>>, <<"sumalgo", 0>>} ELSE {})
   \cup (IF mode = "signedtrailer" THEN {<<"sumsigned", 0>>, <<"tsig", 0>>} ELSE {})
   \cup (IF sc = "unit"
         THEN {<<"dropfinal", 0>>}
@@ -125,6 +138,7 @@ AllIds(ch) == [i \in 1..SumSeq(ch) |-> i]
 Chain(ch, j) == [i \in 1..j |-> ChunkIds(ch, i)]            \* what an honest client signed up to chunk j
 FinalChain(ch) == Append(Chain(ch, Len(ch)), <<>>)
 
+OtherAlgo(a) == IF a = "crc32" THEN "sha256" ELSE "crc32"
 FlipId(c, id) == IF c.mut = "flip" /\ c.at = id THEN id + 10 ELSE id
 
 DataChunk(c, j) ==
@@ -147,9 +161,11 @@ FinalPart(c) ==
                ELSE NoSig
       good  == Sum(c.algo, AllIds(c.chunks))
       bad   == BadSum(c.algo, AllIds(c.chunks))
-      sent  == IF c.mut \in {"sum", "sumsigned"} THEN bad ELSE good
+      other == Sum(OtherAlgo(c.algo), AllIds(c.chunks))       \* correct value, but not the declared algorithm
+      sent  == IF c.mut \in {"sum", "sumsigned"} THEN bad ELSE IF c.mut = "sumalgo" THEN other ELSE good
       tsig  == IF c.mut = "tsig" THEN BadTSig(fc, good)
                ELSE IF c.mut = "sumsigned" THEN TSig(fc, bad)   \* client signed its own wrong checksum
+               ELSE IF c.mut = "sumalgo" THEN TSig(fc, other)   \* client signed the trailer it sent
                ELSE TSig(fc, good)                               \* "sum": altered after signing
       lines == <<Tr(sent)>> \o (IF c.mode = "signedtrailer" THEN <<Ts(tsig)>> ELSE <<>>)
   IN <<Hdr(<<>>, 0, fsig)>> \o
@@ -352,7 +368,7 @@ Malformed(c) == c.mut \in FramingMuts
 Tampered(c) ==
   CASE c.mut \in {"flip", "dropchunk"} -> CanVerifySigs(c) \/ HasChecksum(c)
     [] c.mut = "chunksig"              -> CanVerifySigs(c)
-    [] c.mut \in {"sum", "sumsigned"}  -> TRUE
+    [] c.mut \in {"sum", "sumalgo", "sumsigned"} -> TRUE
     [] c.mut = "tsig"                  -> CanVerifySigs(c)
     [] OTHER                           -> FALSE
 \* payload of the stream as sent (framing intact)
